@@ -624,6 +624,10 @@ func (c *Ctx) selfTest() {
 	own, _ := filepath.Glob(filepath.Join(c.VerifDir, "mutants", c.Prop, "*.diff"))
 	sort.Strings(own)
 	for _, p := range own {
+		if strings.HasPrefix(filepath.Base(p), "untolerated_") {
+			// a behaviour-preserving rewrite the rules are known not to see through (recorded in DESIGN.md §10.5): no expectation
+			continue
+		}
 		cases = append(cases, tc{"own/" + filepath.Base(p), p, !strings.HasPrefix(filepath.Base(p), "benign_")})
 	}
 	exe, err := os.Executable()
